@@ -475,20 +475,31 @@ def _is_not_none(test, name):
 
 
 def _membership_reject(fn, pname):
-    pc = PathConditions(fn, Atomizer())
+    """``fn`` returns its argument unchanged and raises exactly when the argument is outside a collection of admitted values
+    (decided on the path conditions: works for `if x not in T: raise`, accept-first forms and always-raising helpers)."""
+    from ..boolx import evaluate as _evl
     rets = astq.returns(fn)
     if not rets or not all(dotted(r.value) == pname for r in rets) or astq.assigned_in(fn, pname):
         return False
-    # raises iff not in tuple
-    for n in ast.walk(fn):
-        if isinstance(n, ast.If) and block_always_raises(n.body):
-            t = n.test
-            if isinstance(t, ast.Compare) and len(t.ops) == 1 and isinstance(t.ops[0], ast.NotIn) and dotted(t.left) == pname:
-                return True
-            if isinstance(t, ast.UnaryOp) and isinstance(t.op, ast.Not) and isinstance(t.operand, ast.Compare) \
-                    and isinstance(t.operand.ops[0], ast.In) and dotted(t.operand.left) == pname:
-                return True
-    return False
+    return _rejects_non_members(fn, pname)
+
+
+def _rejects_non_members(fn, pname=None):
+    from ..boolx import evaluate as _evl
+    pc = PathConditions(fn, Atomizer())
+    if pc.raises == FALSE:
+        return False
+    ats = sorted(atoms_of_formula(pc.raises))
+    subj = [a for a in ats if a.startswith(("in(", "eq(")) and (pname is None or a.startswith(("in(%s, " % pname, "eq(%s, " % pname)))]
+    if not subj or len(ats) > 10:
+        return False
+    others = [a for a in ats if a not in subj]
+    from itertools import product as _prod
+    for vals in _prod((False, True), repeat=len(others)):
+        env = dict(zip(others, vals))
+        if not _evl(pc.raises, dict(env, **{a: False for a in subj})):
+            return False  # a value outside every admitted set is accepted
+    return True
 
 
 def _only_forwarded(fn, pname, method):
@@ -610,19 +621,24 @@ def rule_R2(ctx, repo):
         ats_ = sorted(atoms_of_formula(f))
         ints = [a for a in ats_ if a.startswith("isinstance(x, ") and "int" in a and "bool" not in a and "float" not in a]
         bools = [a for a in ats_ if a == "isinstance(x, bool)"]
-        if len(ints) == 1 and not bools and len(ats_) <= 8:
+        if ints and not bools and len(ats_) <= 8:
             ok, detail = False, "is_int does not exclude bool (bool is a subclass of int): %s" % show(f)
-        if len(ints) == 1 and len(bools) == 1 and len(ats_) <= 8:
+        if ints and len(bools) == 1 and len(ats_) <= 8:
             others = [a for a in ats_ if a not in ints + bools]
             ok = True
             for vals in _prod((False, True), repeat=len(others)):
                 env = dict(zip(others, vals))
-                if ok and _evl(f, dict(env, **{ints[0]: False, bools[0]: False})):
+                none = {a: False for a in ints}
+                if ok and _evl(f, dict(env, **dict(none, **{bools[0]: False}))):
                     ok, detail = False, "is_int accepts a value that is not of integer type (when %s)" % {k: v for k, v in env.items() if v}
-                if ok and _evl(f, dict(env, **{ints[0]: True, bools[0]: True})):
-                    ok, detail = False, "is_int accepts bool"
-                if ok and not _evl(f, dict(env, **{ints[0]: True, bools[0]: False})):
-                    ok, detail = False, "is_int rejects a proper integer (when %s)" % env
+                for one in ints:
+                    some = dict(none, **{one: True})
+                    if ok and _evl(f, dict(env, **dict(some, **{bools[0]: True}))):
+                        ok, detail = False, "is_int accepts bool"
+                    if ok and not _evl(f, dict(env, **dict(some, **{bools[0]: False}))):
+                        ok, detail = False, "is_int rejects a proper integer of type %s (when %s)" % (one, env)
+        if ok is None and f is not None and not ints:
+            ok, detail = False, "is_int does not test for the integer types: %s" % show(f)
     ctx.check(ok, "R2", "is_int", "exactly the integer types are accepted, bool excluded", detail, ctx.loc(m, fn))
 
     for relpath, fname, pname in ((VALID, "check_window_length", "window_length"), (VFC, "check_step_length", "step_length")):
@@ -649,7 +665,7 @@ def rule_R2(ctx, repo):
     # check_cutoffs
     fn = repo.func(VFC, "check_cutoffs")
     pc = PathConditions(fn, Atomizer({"cutoffs": "x"}))
-    spec_parts = {"type": neg(atom("isinstance(x, [np.ndarray, pd.Index])")), "empty": atom("eq(len(x), 0)")}
+    spec_parts = {"type": neg(disj(atom("isinstance(x, np.ndarray)"), atom("isinstance(x, pd.Index)"))), "empty": atom("eq(len(x), 0)")}
     types_ok, _ = equivalent(conj(pc.raises, spec_parts["type"]), spec_parts["type"])
     need = disj(spec_parts["type"], spec_parts["empty"])
     imp, wit = equivalent(disj(neg(need), pc.raises), TRUE)
@@ -958,19 +974,24 @@ def rule_R3(ctx, repo, flow):
     cs = repo.func(EVAL, "_check_strategy")
     allowed = None
     for node in ast.walk(cs):
-        if isinstance(node, ast.If) and block_always_raises(node.body) and isinstance(node.test, ast.Compare) \
-                and len(node.test.ops) == 1 and isinstance(node.test.ops[0], ast.NotIn):
-            subj_ = astq.inline_locals(cs, node.test.left)
+        if isinstance(node, ast.Compare) and len(node.ops) == 1 and isinstance(node.ops[0], (ast.NotIn, ast.In)):
+            tup = node.comparators[0]
+            if isinstance(tup, ast.Name):
+                vals = astq.assigned_values(cs, tup.id)
+                tup = vals[0] if len(vals) == 1 else tup
+            lits_ = astq.str_consts(tup)
+            if lits_ is None:
+                continue
+            subj_ = astq.inline_locals(cs, node.left)
             if not (isinstance(subj_, ast.Name) and subj_.id == "strategy"):
                 ctx.violation("R3", "evaluate:strategy", "_check_strategy tests a normalised value (%s) for membership while evaluate dispatches on the raw "
                               "`strategy`: names the validator admits can reach the dispatch unrecognised and are silently treated as the default branch"
                               % ast.unparse(subj_), ctx.loc(emod, cs))
                 return
-            tup = node.test.comparators[0]
-            if isinstance(tup, ast.Name):
-                vals = astq.assigned_values(cs, tup.id)
-                tup = vals[0] if len(vals) == 1 else tup
-            allowed = astq.str_consts(tup)
+            allowed = lits_
+    if allowed is not None and not _rejects_non_members(cs, "strategy"):
+        ctx.violation("R3", "evaluate:strategy", "_check_strategy does not raise for every value outside %s" % (allowed,), ctx.loc(emod, cs))
+        return
     used = []
     scan = [ev]
     for c in astq.calls(ev):
@@ -1082,12 +1103,7 @@ def _table_dispatch(fn, subj):
 
 
 def _func_rejects_unknown(fn):
-    for n in ast.walk(fn):
-        if isinstance(n, ast.If) and block_always_raises(n.body):
-            t = n.test
-            if isinstance(t, ast.Compare) and len(t.ops) == 1 and isinstance(t.ops[0], ast.NotIn):
-                return True
-    return False
+    return _rejects_non_members(fn)
 
 
 # ================================================================================ R4
@@ -1326,6 +1342,8 @@ def _stores_checked_fh(fn):
 
 
 def run(ctx):
+    from ..boolx import bind_repo as _bind_repo
+    _bind_repo(ctx.repo)
     repo = ctx.repo
     flow = Flow(repo)
     ctx.explain("C20: must-call of the validators on every path of every entry point (per concrete class), truth tables of the validators' "
